@@ -37,6 +37,9 @@ CHECKS['C04'] = dict(engine='S', tech='symbolic execution of the real transcript
 CHECKS['C13'] = dict(engine='S', tech=S_TECH + ' (random-oracle model: nonces are oracle symbols named by their recorded derivation)',
     text='bounded symbolic verification in the random-oracle model: the blinding coordinates of every prover message are read off the linear forms of the proof points produced by the real prover; each is shown to be exactly one oracle output (transcript RNG state that absorbed the external stream, or Blake2b(00|seed|j|k, persona=label) with a seed), pairwise distinct, non-zero on the path; the two final masking scalars are RNG outputs also with a seed; two runs with different external streams share none',
     note='A1 (freshness/unpredictability = distinct oracle inputs), A2, A4, A5', ref='§5 C13')
+CHECKS['C14'] = dict(engine='S', tech=S_TECH + ' (random-oracle model; RNG states are recorded derivations)',
+    text='bounded symbolic verification in the random-oracle model under four external-RNG fault models: every nonce the prover draws from randomness is an output of a recorded state (current transcript incl. every prover message so far, rekey with the serialised witness of ALL openings, external bytes); z3 shows the state input determines every blinding factor; pairs of runs differing in witness (same commitment), context or statement share no nonce symbol, identical runs reproduce',
+    note='A1, A2, A4, A5', ref='§5 C14')
 NA = {
 }
 def main():
